@@ -60,14 +60,14 @@ class C13(Prop):
         r = rng.below(10)
         if pool and r < 4:
             w = rng.pick(pool)
-            m = rng.below(7)
+            m = rng.below(8)
             if m == 0 and w:
                 w = w[:rng.below(len(w))]                     # proper prefix
             elif m == 1 and w:
                 i = rng.below(len(w))
                 w = w[i:i + 1 + rng.below(len(w) - i)]        # substring
-            elif m == 2:
-                w = w + rng.pick(ATOMS)                       # extension
+            elif m == 2 or m == 5:
+                w = w + "".join(rng.pick(ATOMS) for _ in range(rng.range(1, 2)))   # extension
             elif m == 3:
                 w = w.swapcase() if rng.chance(1, 2) else "".join(ch.swapcase() if rng.chance(1, 2) else ch for ch in w)
             elif m == 4 and w:
@@ -85,7 +85,7 @@ class C13(Prop):
         pool.extend(pats)
         return ["F", pats, rng.chance(1, 2), rng.chance(1, 2)]
 
-    def gen_tree(self, rng, depth, budget, pool):
+    def gen_tree(self, rng, depth, budget, pool, ctx=""):
         """budget: [remaining nodes]"""
         budget[0] -= 1
         if depth == 0 or budget[0] <= 0 or rng.chance(1, 6):
@@ -94,14 +94,14 @@ class C13(Prop):
         if t == "P":
             w = self.word(rng, pool)
             pool.append(w)
-            return ["P", w, self.gen_tree(rng, depth - 1, budget, pool)]
+            return ["P", w, self.gen_tree(rng, depth - 1, budget, pool, w + "." + ctx)]
         if t == "F":
             l = self.gen_layer(rng, pool)
             while l[0] != "F":
                 l = self.gen_layer(rng, pool)
-            return ["F", l[1], l[2], l[3], self.gen_tree(rng, depth - 1, budget, pool)]
+            return ["F", l[1], l[2], l[3], self.gen_tree(rng, depth - 1, budget, pool, ctx)]
         if t == "R":
-            d = self.gen_tree(rng, depth - 1, budget, pool)
+            d = self.gen_tree(rng, depth - 1, budget, pool, ctx)
             routes = []
             for _ in range(rng.weighted([(1, 0), (3, 1), (4, 2), (3, 3), (2, 4)])):
                 m = rng.weighted([(3, 7), (2, 1), (2, 2), (2, 4)])
@@ -109,17 +109,24 @@ class C13(Prop):
                     p = rng.pick(routes)[1]                    # duplicate pattern (overwrite)
                     if rng.chance(1, 2):
                         p = p + rng.pick(ATOMS)                # nested route
+                elif ctx and rng.chance(1, 3):
+                    # the names arriving here carry the enclosing prefixes: routes that can match them
+                    p = ctx + self.word(rng, pool, 2) if rng.chance(2, 3) else ctx[:rng.below(len(ctx) + 1)]
                 else:
                     p = self.word(rng, pool, 3)
                 pool.append(p)
-                routes.append([m, p, self.gen_tree(rng, depth - 1, budget, pool)])
+                routes.append([m, p, self.gen_tree(rng, depth - 1, budget, pool, ctx)])
             return ["R", d, routes]
         if t == "N":
             n = rng.weighted([(1, 0), (2, 1), (4, 2), (2, 3), (1, 4)])
-            return ["N", [self.gen_tree(rng, depth - 1, budget, pool) for _ in range(n)]]
-        base = self.gen_tree(rng, depth - 1, budget, pool)
+            return ["N", [self.gen_tree(rng, depth - 1, budget, pool, ctx) for _ in range(n)]]
         n = rng.weighted([(1, 0), (3, 1), (4, 2), (2, 3), (1, 4)])
-        return ["S", base, [self.gen_layer(rng, pool) for _ in range(n)]]
+        layers = [self.gen_layer(rng, pool) for _ in range(n)]
+        for l in reversed(layers):                       # the operation meets the last pushed layer first
+            if l[0] == "P":
+                ctx = l[1] + "." + ctx
+        base = self.gen_tree(rng, depth - 1, budget, pool, ctx)
+        return ["S", base, layers]
 
     def gen_op(self, rng, pool):
         k = rng.pick("cgh")
